@@ -76,8 +76,15 @@ func (ex *Exec) decodeSnap(st *State, snap interface{}, t types.Type, name strin
 	case "nil":
 		return ex.zero(t)
 	case "big":
+		if v := bigOf(); !ex.IntMode && v.BitLen() >= ex.BigW {
+			// does not fit the model width: only an error if it is actually read as a number
+			return PtrV{Obj: st.NewObj(OpaqueV{Desc: "big constant wider than bigw: " + name})}
+		}
 		return PtrV{Obj: st.NewObj(BigV{T: ex.bigConst(bigOf())})}
 	case "bigval":
+		if v := bigOf(); !ex.IntMode && v.BitLen() >= ex.BigW {
+			return OpaqueV{Desc: "big constant wider than bigw: " + name}
+		}
 		return BigV{T: ex.bigConst(bigOf())}
 	case "ptr":
 		id, _ := m["id"].(float64)
